@@ -278,6 +278,11 @@ unsigned pv_gen_birthday(pv_rng* r);
  * feature bits allowed by `enabled` (+ the encrypted bit); returns false if (p,i) is inadmissible then.
  * seed_out (optional) receives the abstract seed. */
 bool pv_gen_place(pv_rng* r, int p, unsigned i, unsigned coin, bool loadable, unsigned enabled, unsigned d[16], pv_mseed* seed_out);
+/* indices of language A whose word is also recognised (model matcher) by language B; cached */
+int pv_overlap(int a, int b, const unsigned** idx_out);
+/* checksum-valid phrase coefficients (coin applied) whose 16 words all belong to overlap(A,B) and whose seed is
+ * loadable under `enabled`; false if none found within the retry budget */
+bool pv_gen_ambiguous(pv_rng* r, int a, int b, unsigned coin, unsigned enabled, unsigned d[16], pv_mseed* seed_out);
 /* the expected KDF stub output for given arguments (mode 0) */
 void pv_kdf_mix(const uint8_t* pw, size_t pwlen, const uint8_t* salt, size_t saltlen, uint64_t iterations, uint8_t* key, size_t keylen);
 
